@@ -15,7 +15,7 @@ func init() {
 		id: "C09",
 		li: levelInfo{
 			Level:       "other",
-			Explanation: "Static lifecycle rules. R1: for every component whose Stop/Close blocks on a done latch, the function that closes the latch closes it on every return path. R2: inside the goroutines of listener, session, backend connection, upstream and the two procs every blocking channel operation is guarded (select with a quit latch), a join on a lifecycle latch, or bounded by a timer. R3 (lockset analysis): listener.conns and listener.ln are accessed only under listener.mu, or before the object is shared, or (ln, written once) in code that runs only after the write; the assignment of ln is followed by a re-test of quit/drain that closes the socket. R4: nothing reachable from Drain touches the registry or the quit latch. R5: limit test and insertion are in one critical section and the admission predicate is right over the orderings of len vs limit. R6: Stop closes the listener and every connection of the snapshot taken under the lock, marks the registry stopped in the same critical section, then joins. R7: no lock -> latch wait-for cycle: at every call that joins a lifecycle latch, no lock of the must-hold lockset is acquired anywhere in the code the joined goroutines run before the latch closes (a quit test in front of such an acquisition is not accepted: test-then-lock is not atomic). R4 also requires that Drain closes the drain latch whether or not the port is bound (shared with C17.R6). Wall-clock bounds and goroutine counts are not decided. R8: every quit latch that guards blocking operations has a closer that does not itself wait on it, is called from outside the component and not only on its creation path. The publication of the socket may sit in a helper that performs it on every path: everything dominated by its single call site counts as after the write.",
+			Explanation: "Static lifecycle rules. R1: for every component whose Stop/Close blocks on a done latch, the function that closes the latch closes it on every return path. R2: inside the goroutines of listener, session, backend connection, upstream and the two procs every blocking channel operation is guarded (select with a quit latch), a join on a lifecycle latch, or bounded by a timer. R3 (lockset analysis): listener.conns and listener.ln are accessed only under listener.mu, or before the object is shared, or (ln, written once) in code that runs only after the write; the assignment of ln is followed by a re-test of quit/drain that closes the socket. R4: nothing reachable from Drain touches the registry or the quit latch. R5: limit test and insertion are in one critical section and the admission predicate is right over the orderings of len vs limit. R6: Stop closes the listener and every connection of the snapshot taken under the lock, marks the registry stopped in the same critical section, then joins. R7: no lock -> latch wait-for cycle: at every call that joins a lifecycle latch, no lock of the must-hold lockset is acquired anywhere in the code the joined goroutines run before the latch closes (a quit test in front of such an acquisition is not accepted: test-then-lock is not atomic). R4 also requires that Drain closes the drain latch whether or not the port is bound (shared with C17.R6). Wall-clock bounds and goroutine counts are not decided. R8: every quit latch that guards blocking operations has a closer that does not itself wait on it, is called from outside the component and not only on its creation path. The publication of the socket may sit in a helper that performs it on every path: everything dominated by its single call site counts as after the write. R9 (stop order): at every join of a component lifecycle latch, each blocking select of the goroutines the join waits for (the closer's own code and the goroutines it waits for through a WaitGroup) watches a latch that is closed by then - by the stop function before the join, by a component it has already stopped and joined, or by the joined call itself - or a timer; a select that offers a data channel and watches only a latch closed later in the stop sequence is reported. This is a sufficient condition: a design that relies on the data channel making progress instead of a latch is reported too.",
 			TrustedBase: []string{"go/ssa", "VTA call graph", "samlint elock.go, echan.go, zone.go"},
 		},
 		run: checkC09,
@@ -250,6 +250,8 @@ func checkC09(c *Ctx) {
 	// ---------------- R7
 	checkWaitForCycles(c)
 	checkQuitHasExternalCloser(c, "R8")
+	c.Rule("R9", "stop order: at every join of a stop function, each blocking select the joined goroutines can be parked in watches a latch that is closed by then - not one that the stop function closes only after the join")
+	checkJoinBeforeRelease(c, "R9")
 }
 
 func checkListener(c *Ctx, ce *chanEngine) {
@@ -1024,4 +1026,301 @@ func checkQuitHasExternalCloser(c *Ctx, rule string) {
 	if n == 0 {
 		c.Unresolved(rule, "no component blocks on a quit latch")
 	}
+}
+
+// checkJoinBeforeRelease (C09.R9): when a stop function waits for a group of goroutines (a join on a lifecycle latch),
+// every blocking select those goroutines can be parked in must watch a latch that is already closed at that moment -
+// closed by the stop function before the join (directly, or by a component it has already stopped and joined), or by
+// the joined call itself before it waits. A select whose only latch belongs to a component the stop function stops
+// AFTER the join is released too late: if the data channel it offers is stuck (a full queue towards a silent backend),
+// the join never ends and the later stop is never reached.
+func checkJoinBeforeRelease(c *Ctx, rule string) {
+	p := c.P
+	ce := newChanEngine(p)
+	le := newLockEngine(p, "proc", "proc/redis", "proc/tcp")
+	doneFields := latchFields(p, "done")
+	closersOf := func(d *types.Var) []*ssa.Function {
+		var roots []*ssa.Function
+		for _, op := range p.chanOpsOnField(d) {
+			if op.Kind == opClose {
+				roots = append(roots, topFn(op.Fn))
+			}
+		}
+		return roots
+	}
+	// everything a call runs on its own goroutine (module functions, dynamic callees resolved, go statements not followed)
+	var pref types.Type // receiver type of the stop function whose join is examined
+	var reach func(f *ssa.Function, seen map[*ssa.Function]bool, depth int)
+	reach = func(f *ssa.Function, seen map[*ssa.Function]bool, depth int) {
+		if f == nil || seen[f] || !ownAnalysable(f) || depth > 14 {
+			return
+		}
+		seen[f] = true
+		eachInstr(f, func(_ *ssa.BasicBlock, _ int, x ssa.Instruction) {
+			ci, ok := x.(ssa.CallInstruction)
+			if !ok {
+				return
+			}
+			if _, isGo := x.(*ssa.Go); isGo {
+				return
+			}
+			if _, isB := ci.Common().Value.(*ssa.Builtin); isB {
+				return
+			}
+			hs := p.callees(ci)
+			// a callback stored in a shared component (the listener's connection handler) resolves to the callbacks
+			// of every user of that component: for the join of one owner only its own method values count
+			if pref != nil && len(hs) > 1 && ci.Common().StaticCallee() == nil && !ci.Common().IsInvoke() {
+				var mine []*ssa.Function
+				for _, h := range hs {
+					if h.Synthetic != "" && len(h.FreeVars) == 1 && types.Identical(h.FreeVars[0].Type(), pref) {
+						mine = append(mine, h)
+					}
+				}
+				if len(mine) > 0 {
+					hs = mine
+				}
+			}
+			for _, h := range hs {
+				reach(h, seen, depth+1)
+			}
+		})
+	}
+	closedIn := func(fns map[*ssa.Function]bool, out map[*types.Var]bool) {
+		for f := range fns {
+			eachInstr(f, func(_ *ssa.BasicBlock, _ int, x ssa.Instruction) {
+				if isBuiltin(x, "close") {
+					if fld, _ := chanFieldOf(callOf(x).Args[0]); fld != nil {
+						out[fld] = true
+					}
+				}
+			})
+			// sync.Once.Do(func(){ close(l) }) closures
+			for _, a := range f.AnonFuncs {
+				eachInstr(a, func(_ *ssa.BasicBlock, _ int, x ssa.Instruction) {
+					if isBuiltin(x, "close") {
+						if fld, _ := chanFieldOf(callOf(x).Args[0]); fld != nil {
+							out[fld] = true
+						}
+					}
+				})
+			}
+		}
+	}
+	// latches closed once the call of g has returned: what g runs, plus - for every lifecycle latch g waits for - what
+	// the closer of that latch runs before closing it
+	var closedBy func(g *ssa.Function, out map[*types.Var]bool, depth int)
+	closedBy = func(g *ssa.Function, out map[*types.Var]bool, depth int) {
+		if depth > 2 {
+			return
+		}
+		seen := map[*ssa.Function]bool{}
+		reach(g, seen, 0)
+		closedIn(seen, out)
+		for _, d := range doneFields {
+			if strings.HasSuffix(ownerOf(p, d), "Request") {
+				continue
+			}
+			if p.waitsOn(g, d, 3, map[*ssa.Function]bool{}) != nil {
+				for _, r := range closersOf(d) {
+					closedBy(r, out, depth+1)
+				}
+			}
+		}
+	}
+	n := 0
+	seenSite := map[string]int{}
+	for _, fn := range le.fns {
+		eachInstr(fn, func(_ *ssa.BasicBlock, _ int, in ssa.Instruction) {
+			cc := callOf(in)
+			if cc == nil {
+				return
+			}
+			if _, isGo := in.(*ssa.Go); isGo {
+				return
+			}
+			var gs []*ssa.Function
+			if g := calleeFn(cc); g != nil {
+				gs = []*ssa.Function{g}
+			} else if ci, ok := in.(ssa.CallInstruction); ok && cc.IsInvoke() {
+				gs = p.callees(ci)
+			}
+			for _, g := range gs {
+				if g == nil || !isModFn(g) || strings.Contains(g.String(), "/mock") {
+					continue
+				}
+				for _, d := range doneFields {
+					o := ownerOf(p, d)
+					if strings.HasSuffix(o, "Request") {
+						continue
+					}
+					if p.waitsOn(g, d, 3, map[*ssa.Function]bool{}) == nil {
+						continue
+					}
+					// a component's lifecycle latch (its owner also has a latch that asks it to stop), not the latch of a
+					// one-shot result
+					if !hasStopLatch(ce, d) {
+						continue
+					}
+					n++
+					site := fmt.Sprintf("%s joins %s.done via %s: the joined goroutines are released first", fnKey(fn), o, g.Name())
+					if _, dup := seenSite[site]; dup {
+						seenSite[site]++
+						site = fmt.Sprintf("%s #%d", site, seenSite[site])
+					} else {
+						seenSite[site] = 1
+					}
+					pref = nil
+					if fn.Signature.Recv() != nil {
+						pref = fn.Signature.Recv().Type()
+					}
+					// latches closed at the time of the wait
+					before := map[*types.Var]bool{}
+					eachInstr(fn, func(_ *ssa.BasicBlock, _ int, x ssa.Instruction) {
+						if x == in || !instrDominates(x, in) {
+							return
+						}
+						if isBuiltin(x, "close") {
+							if fld, _ := chanFieldOf(callOf(x).Args[0]); fld != nil {
+								before[fld] = true
+							}
+						}
+						if ci, ok := x.(ssa.CallInstruction); ok {
+							if _, isGo := x.(*ssa.Go); isGo {
+								return
+							}
+							if _, isB := ci.Common().Value.(*ssa.Builtin); isB {
+								return
+							}
+							for _, h := range p.callees(ci) {
+								closedBy(h, before, 0)
+							}
+						}
+					})
+					gseen := map[*ssa.Function]bool{}
+					reach(g, gseen, 0)
+					closedIn(gseen, before)
+					// the goroutines that must finish before d is closed: the closer's own code, and the goroutines it
+					// spawns and waits for through a WaitGroup
+					roots := closersOf(d)
+					own := map[*ssa.Function]bool{}
+					for _, r := range roots {
+						reach(r, own, 0)
+					}
+					waited := map[*types.Var]bool{}
+					for f := range own {
+						eachInstr(f, func(_ *ssa.BasicBlock, _ int, x ssa.Instruction) {
+							if cc := callOf(x); cc != nil {
+								if h := calleeFn(cc); h != nil && h.String() == "(*sync.WaitGroup).Wait" {
+									if fld, _ := fieldAddr(cc.Args[0]); fld != nil {
+										waited[fld] = true
+									}
+								}
+							}
+						})
+					}
+					all := map[*ssa.Function]bool{}
+					for f := range own {
+						all[f] = true
+					}
+					for changed := true; changed; {
+						changed = false
+						for f := range all {
+							eachInstr(f, func(_ *ssa.BasicBlock, _ int, x ssa.Instruction) {
+								gi, ok := x.(*ssa.Go)
+								if !ok {
+									return
+								}
+								for _, h := range p.callees(gi) {
+									sub := map[*ssa.Function]bool{}
+									reach(h, sub, 0)
+									isWaited := false
+									for sf := range sub {
+										eachInstr(sf, func(_ *ssa.BasicBlock, _ int, y ssa.Instruction) {
+											if cc := callOf(y); cc != nil {
+												if hh := calleeFn(cc); hh != nil && hh.String() == "(*sync.WaitGroup).Done" {
+													if fld, _ := fieldAddr(cc.Args[0]); fld != nil && waited[fld] {
+														isWaited = true
+													}
+												}
+											}
+										})
+									}
+									if !isWaited {
+										continue
+									}
+									for sf := range sub {
+										if !all[sf] {
+											all[sf] = true
+											changed = true
+										}
+									}
+								}
+							})
+						}
+					}
+					bad := ""
+					var fl []*ssa.Function
+					for f := range all {
+						fl = append(fl, f)
+					}
+					sort.Slice(fl, func(i, j int) bool { return fnKey(fl[i]) < fnKey(fl[j]) })
+					for _, f := range fl {
+						if bad != "" || p.isTestFn(f) {
+							break
+						}
+						eachInstr(f, func(_ *ssa.BasicBlock, _ int, x ssa.Instruction) {
+							sel, ok := x.(*ssa.Select)
+							if !ok || !sel.Blocking || bad != "" {
+								return
+							}
+							var latches []string
+							released, data := false, false
+							for _, st := range sel.States {
+								if isTimerChan(st.Chan) {
+									released = true
+									continue
+								}
+								if q, what := ce.isQuitLike(st.Chan); q && st.Dir == types.RecvOnly {
+									fld, _ := chanFieldOf(st.Chan)
+									if fld == nil || before[fld] {
+										released = true
+									} else {
+										latches = append(latches, ownerOf(p, fld)+"."+what)
+									}
+									continue
+								}
+								data = true
+							}
+							if !released && data && len(latches) > 0 {
+								bad = fmt.Sprintf("%s (%s) offers a data channel and watches only %s", fnKey(f), p.Pos(sel.Pos()), strings.Join(latches, ", "))
+							}
+						})
+					}
+					if bad != "" {
+						c.Fail(rule, site, in.Pos(), "a goroutine this join waits for can be parked in a select that no latch closed so far releases: "+bad+", which is closed only later in this stop sequence (or never by it) - when the data channel is stuck (a full queue towards a peer that stopped answering) the join never ends and the stop function hangs")
+					} else {
+						c.OK(rule, site, in.Pos(), fmt.Sprintf("every blocking select of the %d functions the join waits for watches a latch that is closed by then (or a timer)", len(all)))
+					}
+				}
+			}
+		})
+	}
+	if n == 0 {
+		c.Unresolved(rule, "no join site of a lifecycle latch")
+	}
+}
+
+// hasStopLatch: the struct that owns the done latch d has another lifecycle latch (quit / drain / stop).
+func hasStopLatch(ce *chanEngine, d *types.Var) bool {
+	for f := range ce.latch {
+		if f != d && sameOwner(ce.p, f, d) {
+			return true
+		}
+	}
+	return false
+}
+
+func sameOwner(p *Prog, a, b *types.Var) bool {
+	return ownerOf(p, a) == ownerOf(p, b) && ownerOf(p, a) != ""
 }
